@@ -228,6 +228,8 @@ def run_case(case, tier="quick", seed=0, do_replay=True):
         obligations=0, discharged=0, inconclusive=[], violations=[], known=[], harness_errors=[], paths=0,
         canary=None, vacuity=None, conformance=None, samples=[], solver_s=0.0, queries=0,
     )
+    if getattr(case, "concrete_only", False):
+        return _run_concrete(case, res, t0, do_replay)
     ctx = core.Ctx(seed=seed)
     ctx.default_timeout = case.query_timeout
     ctx.unify_timeout = getattr(case, 'unify_timeout', 8000)
@@ -254,7 +256,14 @@ def run_case(case, tier="quick", seed=0, do_replay=True):
             if kind == "raise":
                 tb = traceback.format_exception(type(out), out, out.__traceback__)
                 out = {"__raises__": type(out).__name__, "__trace__": "".join(tb[-3:])[-500:]}
-            refd = case.ref(I, ops, mk) if not getattr(case, "ref_per_path", False) else case.ref_path(I, ops, mk, pc, out)
+            if hasattr(case, "path_obligations"):
+                H = PathHelper(case, ctx, res, mk, do_replay)
+                case.path_obligations(H, I, ops, mk, out)
+                if res["vacuity"] is None:
+                    r, _ = ctx.check(core.BoolConst(True), kind="vacuity", timeout=20000)
+                    res["vacuity"] = "sat" if r != "unsat" else "unsat"
+                continue
+            refd = case.ref(I, ops, mk)
             if "__raises__" in out or "__raises__" in refd:
                 # outcome-kind obligation: code raised <=> oracle says it must raise
                 res["obligations"] += 1
@@ -322,6 +331,65 @@ def run_case(case, tier="quick", seed=0, do_replay=True):
     return res
 
 
+def _run_concrete(case, res, t0, do_replay):
+    """ground case: the real code is executed on concrete inputs (no symbols); compared with the float oracle"""
+    from refs.gauss import FloatOps
+
+    shim.import_gbasis_all()
+    shim.uninstall()
+    mk = FloatMaker({})
+    try:
+        I = case.inputs(mk)
+        raised, out = None, None
+        try:
+            out = case.code(I, mk)
+        except (ValueError, TypeError, ZeroDivisionError, KeyError, IndexError, AttributeError, UnboundLocalError) as e:
+            raised = type(e).__name__
+        ref = case.ref(I, FloatOps, mk)
+        want = ref.get("__raises__") if isinstance(ref, dict) else None
+        bad = []
+        if raised is not None or want is not None:
+            res["obligations"] += 1
+            if (raised == want) or (want == "*" and raised is not None):
+                res["discharged"] += 1
+            else:
+                bad.append((("__raises__", ()), f"code raised {raised}, oracle expects {want}"))
+        else:
+            fo, fr = dict(flatten(out)), dict(flatten(ref))
+            for key, w in fr.items():
+                res["obligations"] += 1
+                if key not in fo:
+                    bad.append((key, "missing from the code's output"))
+                    continue
+                ok = True
+                for (pn, x), (_, y) in zip(fparts(fo[key]), fparts(w)):
+                    if case.replay_compare(key[0], key[1], x, y) or not (real_np.isfinite(x) and real_np.isfinite(y)):
+                        ok = False
+                        bad.append((key, f"code={x!r} oracle={y!r}"))
+                        break
+                if ok:
+                    res["discharged"] += 1
+        for key, note in bad[:MAX_VIOL_PER_CASE]:
+            path, rep = write_and_replay(case, {}, key, "")
+            rec = {"key": _k(key, ""), "note": note, "replay": path, "detail": rep.get("detail")}
+            if rep.get("status") == "reproduced":
+                kf = match_known(case.prop, case.cid, _k(key, ""))
+                if kf:
+                    rec["known"] = kf["id"]
+                    res["known"].append(rec)
+                else:
+                    res["violations"].append(rec)
+            else:
+                res["inconclusive"].append(dict(rec, why=f"concrete mismatch not reproduced in a fresh process: {rep}"))
+        res["vacuity"] = "none"
+        res["queries"] = 0
+    except Exception as e:  # noqa: BLE001
+        res["harness_errors"].append("exception: " + "".join(traceback.format_exception_only(type(e), e)).strip())
+    res["wall_s"] = round(time.time() - t0, 3)
+    res["concrete_only"] = True
+    return res
+
+
 def _symops(ctx):
     sys.path.insert(0, VERIF) if VERIF not in sys.path else None
     from refs.gauss import SymOps
@@ -356,6 +424,54 @@ def _decide_equal(case, ctx, res, mk, key, suf, x, y, do_replay):
         return _handle_sat(case, ctx, res, mk, key, suf, model, None, do_replay)
     res["inconclusive"].append({"key": _k(key, suf), "why": "solver unknown/timeout"})
     return "unknown"
+
+
+class PathHelper:
+    """obligation API for cases whose oracle depends on the path taken by the code"""
+
+    def __init__(self, case, ctx, res, mk, do_replay):
+        self.case, self.ctx, self.res, self.mk, self.do_replay = case, ctx, res, mk, do_replay
+
+    def _full(self):
+        return len(self.res["violations"]) + len(self.res["known"]) >= MAX_VIOL_PER_CASE
+
+    def equal(self, key, x, y):
+        self.res["obligations"] += 1
+        if self._full():
+            return
+        ctx = self.ctx
+        for (suf, a), (_, b) in zip(parts(ctx, x), parts(ctx, y)):
+            if _decide_equal(self.case, ctx, self.res, self.mk, key, suf, a, b, self.do_replay) != "unsat":
+                return
+        self.res["discharged"] += 1
+
+    def unsat(self, key, formula, note=""):
+        """formula must be unsatisfiable under the constraints and the current path condition"""
+        self.res["obligations"] += 1
+        if self._full():
+            return
+        st, model = self.ctx.check(formula, timeout=self.case.query_timeout, kind="obligation", want_model=True)
+        if st == "unsat":
+            self.res["discharged"] += 1
+        elif st == "sat":
+            _handle_sat(self.case, self.ctx, self.res, self.mk, key, "", model, note, self.do_replay)
+        else:
+            self.res["inconclusive"].append({"key": _k(key, ""), "why": "solver unknown/timeout"})
+
+    def fail(self, key, note):
+        self.res["obligations"] += 1
+        if self._full():
+            return
+        st, model = self.ctx.check(core.BoolConst(True), timeout=self.case.query_timeout, kind="obligation", want_model=True)
+        _handle_sat(self.case, self.ctx, self.res, self.mk, key, "", model or {}, note, self.do_replay)
+
+    def ok(self, key):
+        self.res["obligations"] += 1
+        self.res["discharged"] += 1
+
+    def formula(self, sym, op):
+        """Formula for  sym op 0  (cross-multiplied with proven denominator signs)"""
+        return core.sign_formula(lift(self.ctx, sym), op)
 
 
 def _decide_sign(case, ctx, res, mk, key, x, claim, do_replay):
